@@ -159,6 +159,17 @@ static void check_render(Kind k, const Val &v, int base)
     VP_CHECK(blk.c()[len] == 0, "toa_terminator", "%s base %d: no NUL at position %d", kind_name[k], base, len);
     VP_CHECK(ieq(blk.c(), ref, (size_t)len), "toa_text", "%s base %d: got '%.*s' want '%s'", kind_name[k],
              base, len, blk.c(), ref);
+    // one value, one text: the narrow entry points give, character for character (letter case included), what the 64-bit
+    // entry point of the same signedness gives
+    Kind wide = k <= I64 ? I64 : U64;
+    if (k != wide)
+    {
+        Exact blk2((size_t)len + 1);
+        memset(blk2.p, 0x5a, blk2.n);
+        call_toa(wide, v, blk2.c(), base);
+        VP_CHECK(memcmp(blk.p, blk2.p, (size_t)len + 1) == 0, "toa_width_consistency", "base %d: %s gives '%s', %s gives '%s' for the same value", base, kind_name[k],
+                 blk.c(), kind_name[wide], blk2.c());
+    }
 }
 
 // text = canonical rendering (letters in a chosen case pattern) + terminator + tail
@@ -462,20 +473,23 @@ static void t_libc_itoa(Src &s, Case &c)
         c.label("min");
     Exact blk((size_t)len + 1);
     memset(blk.p, 0x5a, blk.n);
+    char *ret;
     switch (which)
     {
     case 0:
-        igc_itoa((int)v.as_signed(), blk.c(), (unsigned short)base);
+        ret = igc_itoa((int)v.as_signed(), blk.c(), (unsigned short)base);
         break;
     case 1:
-        igc_utoa((unsigned)v.mag, blk.c(), (unsigned short)base);
+        ret = igc_utoa((unsigned)v.mag, blk.c(), (unsigned short)base);
         break;
     case 2:
-        igc_ltoa((long)v.as_signed(), blk.c(), (unsigned short)base);
+        ret = igc_ltoa((long)v.as_signed(), blk.c(), (unsigned short)base);
         break;
     default:
-        igc_ultoa((unsigned long)v.mag, blk.c(), (unsigned short)base);
+        ret = igc_ultoa((unsigned long)v.mag, blk.c(), (unsigned short)base);
     }
+    // documented in the shim's stdlib.h: "@return Pointer to buf" (puts(ltoa(x, b, 10)) prints the whole number)
+    VP_CHECK(ret == blk.c(), "libc_itoa_return", "%s base %d: returned buf%+td, the documented return value is buf", names[which], base, ret - blk.c());
     VP_CHECK(blk.c()[len] == 0 && ieq(blk.c(), ref, (size_t)len), "libc_itoa_text", "%s base %d: got '%.*s' want '%s'",
              names[which], base, len + 1, blk.c(), ref);
     // the decimal texts parse back through the shim's own atoi / atol (atol.c): the original value, type minima included
